@@ -21,7 +21,7 @@ def run(tier, replay_file=None):
     R.cov["states"], R.cov["transitions"] = 0, 0
     for ad, ops, insts, mx in ([(False, OPS_MEM, '{"i1","i2","i3"}', 5), (True, OPS_ALL, '{"i1","i2"}', 4)] if quick else
                                [(False, OPS_MEM, '{"i1","i2","i3"}', 7), (True, OPS_ALL, '{"i1","i2"}', 6), (False, OPS_ALL, '{"i1","i2"}', 6)]):
-        mc = tlc.run("Server", dict(consts(ad, ops, insts=insts, maxnow=mx), L='99'), invariants=INVS, view="View", spec="Spec", timeout=3000)
+        mc = tlc.run("Server", dict(consts(ad, ops, insts=insts, maxnow=mx), L='0'), invariants=INVS, view="View", spec="Spec", timeout=3000)
         if mc.violation:
             R.violation("spec:" + mc.violation, {"trace": mc.trace[:3000]})
         R.cov["states"] += mc.distinct
